@@ -1,6 +1,10 @@
 (** * C16 -- histograms: 2^n cells, exact shot total, no shots on impossible outcomes *)
-From QV Require Import Reg ScalarR C16T.
+From QV Require Import Reg ScalarR C16T C16T2.
 
 Theorem C16_histogram : C16_histogram_stmt.
 Proof. exact C16_histogram_proof. Qed.
 Print Assumptions C16_histogram.
+
+Theorem C16_terminates : C16_terminates_stmt.
+Proof. exact C16_terminates_proof. Qed.
+Print Assumptions C16_terminates.
